@@ -12,7 +12,7 @@ package internal
 //@   ensures[C08.unchanged] err != nil ==> same(sensors.avgOf(s), old(sensors.avgOf(s)))
 //@   ensures[C08.finite]    avgOK && err == nil && abs(real(lastValue)) <= 1.0e300 ==> fin(sensors.avgOf(s))
 //@   ensures[C08.hull]      avgOK && err == nil && abs(real(lastValue)) <= 1.0e300 && (lastValue == old(sensors.avgOf(s)) || abs(real(lastValue)) >= 1.0e-270 || abs(real(old(sensors.avgOf(s)))) >= 1.0e-270) && configuration.CurrentConfig.TempRollingWindowSize >= 2 ==> min(old(sensors.avgOf(s)), lastValue) <= sensors.avgOf(s) && sensors.avgOf(s) <= max(old(sensors.avgOf(s)), lastValue)
-//@   ensures[C08.readfin]   err == nil ==> fin(lastValue)
+//@   ensures[C08.readfin]   avgOK && err == nil ==> fin(lastValue)
 //@   modifies lastValue, lastAvgRead, s.(*sensors.HwmonSensor).MovingAvg, s.(*sensors.FileSensor).MovingAvg, s.(*sensors.CmdSensor).MovingAvg, s.(*sensors.VirtualSensor).Value, lastReadFailed, procWorld, started
 
 // ---- daemon wiring: signal actor (C03) ------------------------------------------------------------------
